@@ -29,7 +29,7 @@ MANIFEST = {
     "technique": "Lean 4 proof (invariant over the token stream, all block capacities) + metamorphic differential runs of the real tool",
 }
 
-REQUIRED = ["KV.C07.count_block_indep", "KV.C07.lmplz_indep",
+REQUIRED = ["KV.C07.count_block_indep", "KV.C07.lmplz_indep", "KV.C07.lmplz_indep_final",
             "KV.C07.collapse_partition_indep", "KV.C07.prune_partition_indep",
             "KV.C07.lmplz_indep_vocab", "KV.C07.sort_hyp_discharged", "KV.C07.sort_hyp_discharged_code",
             "KV.C07.count_blocks_nodup", "KV.C07.chain_stream_deterministic",
@@ -213,7 +213,7 @@ def one_corpus(ctx, wrappers, case0, wd, n_cfg, n_rep, label, timeout=120):
             if L.compare_discounts(tstats, ref["discs"]) or fb_ref != tfb:
                 ctx.hist("c05", "discounts-deviate")
             else:
-                mp, worst = L.compare_model(tg, case["order"], ref["grams"], "definition")
+                mp, worst = L.compare_model(tg, case["order"], ref["grams"], "definition", errs=ref.get("errs"))
                 ctx.notes["worst_log10_dev"] = max(ctx.notes.get("worst_log10_dev", 0.0), worst)
                 if mp:
                     ctx.hist("c05", "values-deviate")
